@@ -349,7 +349,7 @@ std_replayer("C08", "C08_import")
 @P.check("C08")
 def c08(ctx):
     """JWK import: generated keys x rendering variations, compared component-wise with the original key"""
-    rule = ("rapidcheck: key (fixture RSA 2048/2049/2056/3072/4096, freshly generated P-256/P-384/P-521/secp256k1/Ed25519/Ed448 [thorough: + fresh RSA], oct of 1-512 bytes) x "
+    rule = ("rapidcheck: key (fixture RSA 2048/2050/2056/3072/4096, freshly generated P-256/P-384/P-521/secp256k1/Ed25519/Ed448 [thorough: + fresh RSA], oct of 1-512 bytes) x "
             "private/public form x rendering (integers zero-padded by 0-3 bytes, EC coordinates fixed-width or stripped, OKP private with/without x, alg from 20 strings incl. "
             "unknown / lower-case / 'P'-prefixed, kid incl. long and non-ASCII, use in {sig, enc, other, SIG}, key_ops subsets incl. unknown ops and non-strings, non-array) x "
             "foreign members (members of other key types, unknown names with any JSON value) x bare or inside a set. Oracle: item error-free; kty, key_bits, curve, is_private, alg, "
@@ -369,7 +369,7 @@ std_replayer("C09", "C09_floor", extra_link="")
 @P.check("C09")
 def c09(ctx):
     """key-strength floor: exhaustive grid over key sizes/curves x algs x generate/verify x provider"""
-    rule = ("exhaustive grid: oct keys of every length 1-160 bytes x HS256/384/512; RSA moduli 512, 1024, 1536, 2040, 2047, 2048, 2049, 2056, 3072, 4096 (thorough: + fresh "
+    rule = ("exhaustive grid: oct keys of every length 1-160 bytes x HS256/384/512; RSA moduli 512, 1024, 1536, 2040, 2047, 2048, 2050, 2056, 3072, 4096 (thorough: + fresh "
             "1024/2047/2048) x RS*/PS*; EC curves P-256, P-384, P-521, secp256k1, secp224r1, brainpoolP256r1, brainpoolP384r1 x ES256/ES256K/ES384/ES512; Ed25519, Ed448 x EdDSA; "
             "cross-family probes; each for jwt_builder_generate and for jwt_checker_verify of a token the reference signer signed validly with that very key; both providers. "
             "Oracle: below the floor => NULL / non-zero with error flag and message; at or above => generate succeeds, the token verifies and the reference verifier accepts "
